@@ -8,7 +8,9 @@
 #  * property oracle on the implementation alone: the same scenario under `smp serial` and under random
 #    permutations / thread counts / thread assignments (own std::thread executor) or OpenMP must print
 #    bit-identical values, energies, forces and write identical state and trajectory files
-#  * thorough tier, exploration: ThreadSanitizer build with the std::thread executor
+#  * the library's own OpenMP modes (smp off|cvcs|inner_loop) x OMP_NUM_THREADS in {1,2,3,4,8} vs the serial single-thread run,
+#    bitwise, on 24 component kinds with large groups and generic coordinates (order of every accumulation matters)
+#  * exploration: ThreadSanitizer build with the std::thread executor (a few scenarios quick, ~200 thorough)
 import os, sys, json, re, math, itertools
 import vcommon as V
 
@@ -612,6 +614,200 @@ def rich_part(run, r, sim, cases, d, env=None):
 
 
 # ------------------------------------------------------------------------------------------------
+# L cases: the library's own OpenMP modes.  Every SMP mode the build accepts (configuration keyword
+# `smp off | cvcs | inner_loop`) x OMP_NUM_THREADS in {1,2,3,4,8} vs the serial single-thread run, on components
+# with large atom groups and generic (non-dyadic) coordinates, so that the ORDER of every floating-point
+# accumulation matters: values, energies, forces, state must be bit-identical.
+# ------------------------------------------------------------------------------------------------
+LMODES = ["off", "cvcs", "inner_loop"]
+LTHREADS = [1, 2, 3, 4, 8]
+LKINDS = ["rmsd", "rmsd", "gyration", "inertia", "inertiaz", "coordnum", "selfcoordnum", "eigenvector", "orientation", "orientationangle",
+          "orientationproj", "tilt", "spinangle", "distancepairs", "distanceinv", "distance", "distancez", "distancexy", "angle", "dihedral",
+          "cartesian", "gspath", "gzpath", "aspath", "azpath"]
+
+
+def fpos(r, n, scale=6.0):
+    return [[r.uniform(-scale, scale), r.uniform(-scale, scale), r.uniform(-scale, scale)] for _ in range(n)]
+
+
+def plist(ps):
+    return " ".join("(%r, %r, %r)" % (q[0], q[1], q[2]) for q in ps)
+
+
+def gen_lcase(r, k, kinds=None):
+    natoms = 40
+    atoms = list(range(1, natoms + 1))
+    pos = fpos(r, natoms)
+    nv = r.randint(1, 3)
+    vars_, files = [], {}
+    for v in range(nv):
+        kind = (kinds[v % len(kinds)] if kinds else r.choice(LKINDS))
+        a = r.sample(atoms, 36)
+        big = sorted(a[:r.randint(16, 24)])
+        L = ["colvar {", "  name v%d" % v]
+        bias = "scalar"
+        if kind == "rmsd":
+            L += ["  rmsd {", "    atoms { %s }" % grp(big), "    refPositions %s" % plist(fpos(r, len(big))), "  }"]
+        elif kind == "gyration":
+            L += ["  gyration {", "    atoms { %s }" % grp(big), "  }"]
+        elif kind == "inertia":
+            L += ["  inertia {", "    atoms { %s }" % grp(big), "  }"]
+        elif kind == "inertiaz":
+            L += ["  inertiaZ {", "    atoms { %s }" % grp(big), "    axis (0.3, -0.5, 1.0)", "  }"]
+        elif kind == "coordnum":
+            L += ["  coordNum {", "    cutoff 5.0", "    group1 { %s }" % grp(a[:12]), "    group2 { %s }" % grp(a[12:24]), "  }"]
+        elif kind == "selfcoordnum":
+            L += ["  selfCoordNum {", "    cutoff 5.0", "    group1 { %s }" % grp(a[:16]), "  }"]
+        elif kind == "eigenvector":
+            L += ["  eigenvector {", "    atoms { %s }" % grp(big), "    refPositions %s" % plist(fpos(r, len(big))),
+                  "    vector %s" % plist(fpos(r, len(big), 1.0)), "  }"]
+        elif kind in ("orientation", "orientationangle", "orientationproj", "tilt", "spinangle"):
+            name = {"orientation": "orientation", "orientationangle": "orientationAngle", "orientationproj": "orientationProj",
+                    "tilt": "tilt", "spinangle": "spinAngle"}[kind]
+            sel = sorted(a[:12])
+            # reference = the starting positions, slightly deformed: the optimal rotation stays well defined
+            ref = [[pos[i - 1][q] + r.uniform(-0.5, 0.5) for q in range(3)] for i in sel]
+            L += ["  %s {" % name, "    atoms { %s }" % grp(sel), "    refPositions %s" % plist(ref)]
+            if kind in ("tilt", "spinangle"):
+                L += ["    axis (0.2, 0.3, 1.0)"]
+            L += ["  }"]
+            if kind == "orientation":
+                bias = "quaternion"
+        elif kind == "distancepairs":
+            L += ["  distancePairs {", "    group1 { %s }" % grp(a[:3]), "    group2 { %s }" % grp(a[3:7]), "  }"]
+            bias = None
+        elif kind == "distanceinv":
+            L += ["  distanceInv {", "    group1 { %s }" % grp(a[:8]), "    group2 { %s }" % grp(a[8:16]), "  }"]
+        elif kind == "distance":
+            L += ["  distance {", "    group1 { %s }" % grp(a[:12]), "    group2 { %s }" % grp(a[12:24]), "  }"]
+        elif kind == "distancez":
+            L += ["  distanceZ {", "    main { %s }" % grp(a[:12]), "    ref { %s }" % grp(a[12:24]), "    axis (1, 0.5, -0.25)", "  }"]
+        elif kind == "distancexy":
+            L += ["  distanceXY {", "    main { %s }" % grp(a[:12]), "    ref { %s }" % grp(a[12:24]), "    axis (1, 0.5, -0.25)", "  }"]
+        elif kind == "angle":
+            L += ["  angle {", "    group1 { %s }" % grp(a[:8]), "    group2 { %s }" % grp(a[8:16]), "    group3 { %s }" % grp(a[16:24]), "  }"]
+        elif kind == "dihedral":
+            L += ["  dihedral {", "    group1 { %s }" % grp(a[:6]), "    group2 { %s }" % grp(a[6:12]), "    group3 { %s }" % grp(a[12:18]),
+                  "    group4 { %s }" % grp(a[18:24]), "  }"]
+        elif kind == "cartesian":
+            L += ["  cartesian {", "    atoms { %s }" % grp(a[:6]), "  }"]
+            bias = None
+        elif kind in ("gspath", "gzpath", "aspath", "azpath"):
+            sel = sorted(a[:12])
+            L += ["  %s {" % kind, "    atoms { %s }" % grp(sel)]
+            nfr = 4
+            for f in range(nfr):
+                fn = "L%d_v%d_f%d.xyz" % (k, v, f)
+                frame = [[pos[i - 1][q] + 0.6 * (f - 1.3) + r.uniform(-0.3, 0.3) for q in range(3)] for i in sel]
+                files[fn] = "%d\nframe\n" % len(sel) + "".join("C %r %r %r\n" % (q[0], q[1], q[2]) for q in frame)
+                L += ["    refPositionsFile%d %s" % (f + 1, fn)]
+            if kind in ("aspath", "azpath"):
+                L += ["    lambda 0.05"]
+            L += ["  }"]
+        L += ["}"]
+        vars_.append({"kind": kind, "lines": L, "bias": bias})
+    biases = []
+    for v, x in enumerate(vars_):
+        if x["bias"] == "scalar":
+            biases.append(["harmonic {", "  name b%d" % v, "  colvars v%d" % v, "  centers %r" % r.uniform(0.5, 3.0), "  forceConstant %r" % r.uniform(0.5, 3.0), "}"])
+        elif x["bias"] == "quaternion":
+            biases.append(["harmonic {", "  name b%d" % v, "  colvars v%d" % v, "  centers (1.0, 0.0, 0.0, 0.0)", "  forceConstant %r" % r.uniform(0.5, 3.0), "}"])
+    steps = []
+    p = [list(q) for q in pos]
+    for t in range(r.randint(3, 4)):
+        for q in p:
+            for j in range(3):
+                q[j] += r.uniform(-0.2, 0.2)
+        steps.append([list(q) for q in p])
+    return {"id": k, "natoms": natoms, "vars": vars_, "biases": biases, "steps": steps, "files": files}
+
+
+def lcase_config(c, mode):
+    L = [] if mode is None else ["smp %s" % mode]
+    for x in c["vars"]:
+        L += x["lines"]
+    for b in c["biases"]:
+        L += b
+    return L
+
+
+def lcase_scenario(c, mode, tag):
+    """mode None: the reference (simulator in `smp serial`: no parallel region of any kind)"""
+    L = ["natoms %d" % c["natoms"], "smp %s 1" % ("serial" if mode is None else "omp"), "new", "config EOF"] + lcase_config(c, mode) + ["EOF", "show items 0 af 1 tf 0"]
+    for st in c["steps"]:
+        for a, q in enumerate(st):
+            L += ["pos %d %s %s %s" % (a + 1, V.hexf(q[0]), V.hexf(q[1]), V.hexf(q[2]))]
+        L += ["step", "cvcvals"]
+    L += ["save text %s_%d.state" % (tag, c["id"]), "endcase %d" % c["id"]]
+    return L
+
+
+def omp_modes_part(run, r, sim, cases, d, modes=None, threads=None):
+    for c in cases:
+        for fn, txt in c["files"].items():
+            open(os.path.join(d, fn), "w").write(txt)
+    def runall(mode, nt, tag):
+        scen = []
+        for c in cases:
+            scen += lcase_scenario(c, mode, tag)
+        rc, out, err = run_batch(sim, scen, d, {"OMP_NUM_THREADS": str(nt), "OMP_DYNAMIC": "false", "OMP_SCHEDULE": "static"}, timeout=600)
+        return split_cases(out), rc, err
+    ref, rc0, e0 = runall(None, 1, "Lref")
+    usable = []
+    for c in cases:
+        ls = ref.get(c["id"])
+        for x in c["vars"]:
+            run.dist("L:var " + x["kind"])
+        if ls is None:
+            run.violation("harness:incomplete", "reference run of L scenario %d did not complete (rc=%d): %s" % (c["id"], rc0, e0[-300:]),
+                          {"kind": "lcase", "case": c, "mode": None, "threads": 1})
+            continue
+        cfg = [l for l in ls if l.startswith("CONFIG")]
+        if not cfg or "err=ok" not in cfg[0] or any(l.startswith("STEP") and "err=ok" not in l for l in ls):
+            run.dist("L:config rejected or error step (skipped): " + ",".join(x["kind"] for x in c["vars"]))
+            continue
+        usable.append(c)
+    nrun = 0
+    for mode in (modes or LMODES):
+        for nt in (threads or LTHREADS):
+            got, rc, err = runall(mode, nt, "L%s%d" % (mode, nt))
+            nrun += 1
+            for c in usable:
+                ls = got.get(c["id"])
+                rep = {"kind": "lcase", "case": c, "mode": mode, "threads": nt}
+                if ls is None:
+                    run.violation("harness:incomplete", "L scenario %d did not complete under smp %s with %d threads (rc=%d): %s" % (c["id"], mode, nt, rc, err[-300:]), rep)
+                    continue
+                kinds = ",".join(sorted(set(x["kind"] for x in c["vars"])))
+                run.count("L%d:%s:%d:%s" % (c["id"], mode, nt, kinds), nontrivial=nt > 1 and mode != "off")
+                df = first_diff(strip_items(ls), strip_items(ref[c["id"]]))
+                if df:
+                    t = step_of_line(strip_items(ls), df[0])
+                    culprit = ""
+                    for x, y in zip(strip_items(ls), strip_items(ref[c["id"]])):
+                        w = x.split()
+                        if x != y and w and w[0] in ("CV", "CVC") and len(w) > 1 and w[1].startswith("v"):
+                            culprit = c["vars"][int(w[1][1:])]["kind"]
+                            break
+                    run.violation("threads-vs-serial:%s%s" % (mode, (":" + culprit) if culprit else ""),
+                                  "step %d: `%s` with configuration keyword `smp %s` and OMP_NUM_THREADS=%d, but `%s` in the serial single-thread run "
+                                  "(components: %s); the last bits depend on the thread count; config:\n%s" % (
+                                      t, df[1][:200], mode, nt, df[2][:200], kinds, "\n".join(lcase_config(c, mode))[:1500]), rep)
+                    continue
+                sa = os.path.join(d, "L%s%d_%d.state" % (mode, nt, c["id"]))
+                sb = os.path.join(d, "Lref_%d.state" % c["id"])
+                if os.path.exists(sa) and os.path.exists(sb) and open(sa, "rb").read() != open(sb, "rb").read():
+                    run.violation("threads-vs-serial:%s:state" % mode, "state file written under `smp %s` with %d threads differs from the serial single-thread one (components: %s)" % (mode, nt, kinds), rep)
+    run.dist("L:mode x thread-count runs", nrun)
+    run.cov["correspondence"]["l_scenarios"] = len(usable)
+    if usable:
+        run.sample({"L_config": lcase_config(usable[0], "inner_loop")[:30], "modes": modes or LMODES, "threads": threads or LTHREADS})
+    for f in os.listdir(d):
+        if f.startswith("L") and (f.endswith(".state") or f.endswith(".xyz") or f.endswith(".state.old")):
+            os.remove(os.path.join(d, f))
+
+
+# ------------------------------------------------------------------------------------------------
 # log indentation (C12_log_depth_refuted): a component that logs while it is evaluated on a worker thread
 # ------------------------------------------------------------------------------------------------
 def depth_scenario(smp, logf):
@@ -791,7 +987,10 @@ def check(run):
                        "runs under smp serial. R cases (implementation only): 2-4 variables of 12 kinds (distance, 2-3 component combinations, angle, "
                        "dihedral, gyration, coordNum, rmsd, distanceVec, distanceZ, extended Lagrangian with 1-2 components), 1-4 biases of 7 kinds (harmonic incl. moving, "
                        "harmonicWalls, linear, metadynamics with/without grids, histogram, abf), scripted forces, cvcflags; outputs, state and trajectory "
-                       "files compared byte for byte with the serial run. distinct = distinct configuration; non-trivial = >=2 variables or a cvcflags "
+                       "files compared byte for byte with the serial run. L cases (implementation only): each of 24 component kinds (rmsd, gyration, inertia, "
+                       "coordNum, eigenvector, orientation family, distancePairs, distanceInv, distances, angles, cartesian, gspath/gzpath/aspath/azpath) with "
+                       "groups of 12-24 atoms and non-dyadic coordinates, under every SMP mode of the library (smp off|cvcs|inner_loop) x OMP_NUM_THREADS "
+                       "in {1,2,3,4,8}, bitwise vs the serial single-thread run. distinct = distinct configuration (L: x mode x thread count); non-trivial = >=2 variables or a cvcflags "
                        "command, and a bias (T); >=2 biases or a multi-component variable (R)")
     run.assumptions += [
         "PARTIAL: absence of data races in the C++ is not a theorem; it is explored with ThreadSanitizer on the std::thread executor (thorough tier) and by bitwise serial-vs-schedule comparison",
@@ -812,6 +1011,10 @@ def check(run):
         tie_part(run, r, model, sim, tc[b0:b0 + B], d)
     rc = [gen_rcase(r, k) for k in range(80 if quick else 1200)]
     rich_part(run, r, sim, rc, d)
+    # the library's own OpenMP modes x thread counts: every component kind once (round robin), then random mixtures
+    lc = [gen_lcase(r, k, kinds=[sorted(set(LKINDS))[k % len(set(LKINDS))]]) for k in range(len(set(LKINDS)))]
+    lc += [gen_lcase(r, 1000 + k) for k in range(6 if quick else 300)]
+    omp_modes_part(run, r, sim, lc, d)
     depth_part(run, sim, d)
     errbits_part(run, r, model, sim, d, 40 if quick else 400)
     run.cov["correspondence"].update({"t_scenarios": len(tc), "r_scenarios": len(rc)})
@@ -849,6 +1052,15 @@ def replay(path):
         b = V.run_lines(sim, rcase_scenario(c, "serial", "B"), cwd=d)[1]
         print("first difference (schedule vs serial):", first_diff(strip_items(a), strip_items(b)))
         print("---- scenario:\n" + "\n".join(rcase_scenario(c, c["smp"], "A")))
+    elif rp.get("kind") == "lcase":
+        c = rp["case"]
+        for fn, txt in c["files"].items():
+            open(os.path.join(d, fn), "w").write(txt)
+        envs = lambda nt: {"OMP_NUM_THREADS": str(nt), "OMP_DYNAMIC": "false", "OMP_SCHEDULE": "static"}
+        a = V.run_lines(sim, lcase_scenario(c, rp["mode"], "A"), cwd=d, env=envs(rp["threads"]))[1]
+        b = V.run_lines(sim, lcase_scenario(c, None, "B"), cwd=d, env=envs(1))[1]
+        print("smp %s, OMP_NUM_THREADS=%s vs serial single thread; first difference:" % (rp["mode"], rp["threads"]), first_diff(strip_items(a), strip_items(b)))
+        print("---- scenario (run with OMP_NUM_THREADS=%s):\n" % rp["threads"] + "\n".join(lcase_scenario(c, rp["mode"], "A")))
     elif rp.get("kind") == "errbits":
         print(rp.get("line") or "\n".join(rp.get("scenario") or []))
     elif rp.get("kind") == "depth":
